@@ -34,6 +34,10 @@
 #include "flexdef.h"
 
 
+/* The m4 quote around the (empty) action of a '|' rule, see finish_rule(). */
+int     last_finished_rule = 0;
+bool    bar_close_pending = false;
+
 /* declare functions that have forward references */
 
 int	dupmachine(int);
@@ -284,6 +288,16 @@ void    finish_rule (int mach, bool variable_trail_rule, int headcnt, int trailc
 
 	line_directive_out(NULL, infilename, linenum);
         add_action("[[");
+
+	/* A '|' action has no text.  The scanner asks for the quote to be
+	 * closed here when it met the '|' before the rule was reduced;
+	 * a rule ending in '$' is reduced first, then the scanner closes it.
+	 */
+	last_finished_rule = num_rules;
+	if (bar_close_pending) {
+		add_action("]]");
+		bar_close_pending = false;
+	}
 }
 
 
